@@ -1,4 +1,4 @@
-"""C09: lazy loading is invisible (public-table histories only)."""
+"""C09: lazy loading is invisible (public-table histories, and histories whose first touch of a group is a private table's init)."""
 from .. import lazydrv
 
 def run(ctx):
@@ -9,7 +9,8 @@ def run(ctx):
     sim = lazydrv.simulate_histories(ctx, [], 10, 4 if quick else 60, ctx.seed + 9)
     import random
     random.Random(ctx.seed).shuffle(sim)
-    lazydrv.process(ctx, configs, quick, only_private=False, extra_histories=sim[:(60 if quick else 2000)])
+    lazydrv.process(ctx, configs, quick, only_private=False, extra_histories=sim[:(60 if quick else 2000)],
+                    always=lazydrv.private_first_touch(random.Random(ctx.seed + 3)))
 
 def replay(ctx, path):
     return lazydrv.replay(ctx, path)
